@@ -491,6 +491,10 @@ def gen_plan(seed: int, run: int, tier: str) -> dict:
             cb["raise_at"] = rng.randint(1, n_trials)
             cb["exc"] = rng.choice(["RuntimeError", "ValueError", "Custom"])
         plan["callbacks"] = cb
+        if rng.random() < 0.35:
+            # a second optimize call afterwards: on the same Study object, or on a copy made
+            # through the Study pickle protocol (from a checkpointing callback or afterwards)
+            plan["again"] = {"n_trials": rng.randint(1, 3), "via": rng.choice(["same", "copy_in_callback", "copy_in_callback", "copy_after"])}
         if n_jobs > 1:
             cfg["p_line"] = rng.choice([0.003, 0.01, 0.03])
     else:
@@ -961,6 +965,21 @@ def _run_optimize(plan: dict, sim: sched.Sim, ch: sched.Chooser, dep: deploy.Dep
             sim.count("fault:callback_stops")
             study_.stop()
 
+    again = plan.get("again")
+
+    def copy_of(study_: Any) -> Any:
+        # what pickle.loads(pickle.dumps(study)) does with the Study object itself; storage,
+        # sampler and pruner are shared instead of serialised (they hold simulator handles)
+        state = study_.__getstate__()
+        state.pop("stop", None)
+        new_ = optuna.study.Study.__new__(optuna.study.Study)
+        new_.__setstate__(state)
+        return new_
+
+    def cb_checkpoint(study_: Any, ft: Any) -> None:
+        R["checkpoint"] = copy_of(study_)
+        sim.count("checkpoint_in_callback")
+
     # The study and its pre-existing trials are made by the harness thread (not traced, never
     # yields): the number of line events of the list comprehension in optuna.create_study
     # differs between the first and later executions in one interpreter (see C20).
@@ -985,6 +1004,8 @@ def _run_optimize(plan: dict, sim: sched.Sim, ch: sched.Chooser, dep: deploy.Dep
         cbs = [cb_record]
         if cbspec.get("raise_at") or cbspec.get("stop_at"):
             cbs = [cb_fault, cb_record] if cbspec.get("raise_at") else [cb_record, cb_fault]
+        if again and again["via"] == "copy_in_callback":
+            cbs = cbs + [cb_checkpoint]
         try:
             study.optimize(objective, n_trials=n_trials, n_jobs=n_jobs, catch=catch, callbacks=cbs)
             R["outcome"] = ("returned", None)
@@ -1001,6 +1022,35 @@ def _run_optimize(plan: dict, sim: sched.Sim, ch: sched.Chooser, dep: deploy.Dep
             except Exception:  # noqa
                 R["at_return"] = None
             R["cb_at_return"] = {k: len(v) for k, v in R["cb"].items()}
+        if again and R["at_return"] is not None and "RUNNING" not in R["at_return"].values():
+            A: dict[str, Any] = {"calls": 0, "cb": {}, "first_end": len(R["at_return"]), "outcome": None, "via": again["via"], "nums": []}
+            if again["via"] == "same":
+                s2 = study
+            elif again["via"] == "copy_in_callback" and R.get("checkpoint") is not None:
+                s2 = R["checkpoint"]
+            else:
+                A["via"] = "copy_after"
+                s2 = copy_of(study)
+            s2.sampler = optuna.samplers.RandomSampler(seed=1)
+            s2.pruner = optuna.pruners.NopPruner()
+
+            def obj2(trial: Any) -> Any:
+                A["calls"] += 1
+                A["nums"].append(trial.number)
+                trial.suggest_float("again", 0.0, 1.0)
+                return [0.5] * n_obj if n_obj > 1 else 0.5
+
+            def cb2(study_: Any, ft: Any) -> None:
+                A["cb"][ft.number] = A["cb"].get(ft.number, 0) + 1
+
+            R["again"] = A
+            try:
+                s2.optimize(obj2, n_trials=again["n_trials"], n_jobs=1, callbacks=[cb2])
+                A["outcome"] = ("returned", None)
+            except (sched.SimKilled, sched.HarnessError, sched.SimDeadlock):
+                raise
+            except BaseException as e:
+                A["outcome"] = ("raised", e)
 
     t = sim.spawn(proc, "w0", body)
     status = sim.run()
@@ -1016,6 +1066,12 @@ def _run_optimize(plan: dict, sim: sched.Sim, ch: sched.Chooser, dep: deploy.Dep
     obs = dep.observer()
     trials = obs.get_all_trials(obs.get_study_id_from_name(STUDY), deepcopy=False)
     n_done = R["n_done"]
+    A = R.get("again")
+    later = []
+    if A is not None:
+        # trials of the later call: new ones, and enqueued ones it picked up
+        later = [tr for tr in trials if tr.number >= A["first_end"] or tr.number in A["nums"]]
+        trials = [tr for tr in trials if not (tr.number >= A["first_end"] or tr.number in A["nums"])]
     new = [tr for tr in trials if tr.number >= n_done]
     started = [tr for tr in new if tr.state != TrialState.WAITING]
     calls: dict[int, list[dict]] = {}
@@ -1207,6 +1263,21 @@ def _run_optimize(plan: dict, sim: sched.Sim, ch: sched.Chooser, dep: deploy.Dep
                 return violation("n-trials", "a trial started after the exception that ended optimize", "the exception of trial %d propagated, but trial %d was run after it" % (src[0], max(r["num"] for r in R["calls"])))
         elif R["stop_at_calls"] is not None and n_started != R["stop_at_calls"]:
             return violation("n-trials", "a trial started after study.stop()", "study.stop() was called when %d trials had started; %d trials ran" % (R["stop_at_calls"], n_started))
+    # ------------------------------------------------------------------ a later optimize call
+    if A is not None:
+        extra["again:" + A["via"]] = 1
+        k = again["n_trials"]
+        desc = "a later optimize(n_trials=%d) on %s" % (k, {"same": "the same Study object", "copy_in_callback": "a copy of the Study made through its pickle protocol in a callback of the first call", "copy_after": "a copy of the Study made through its pickle protocol"}[A["via"]])
+        if A["outcome"] is None or A["outcome"][0] != "returned":
+            e = A["outcome"][1] if A["outcome"] else None
+            return violation("again", "a later optimize call raised", "%s raised %s(%s)" % (desc, type(e).__name__, str(e)[:200]))
+        if A["calls"] != k or len(later) != k:
+            return violation("n-trials", "a later optimize call did not run n_trials trials although nothing stopped it", "%s called the objective %d times and created %d trials" % (desc, A["calls"], len(later)))
+        for tr in later:
+            if tr.state != TrialState.COMPLETE:
+                return violation("again", "a trial of a later optimize call is not COMPLETE", "%s left trial %d %s" % (desc, tr.number, tr.state.name))
+            if A["cb"].get(tr.number, 0) != 1:
+                return violation("callbacks", "called %d times for one trial of a later optimize call" % A["cb"].get(tr.number, 0), "%s: callback ran %d times for trial %d" % (desc, A["cb"].get(tr.number, 0), tr.number))
     return common.result(sim, ch, "ok", nontrivial=nontrivial, extra_counters=extra)
 
 
